@@ -5,6 +5,7 @@ import (
 	"path/filepath"
 	"sort"
 	"strings"
+	"time"
 
 	"sigs.k8s.io/yaml"
 
@@ -433,6 +434,7 @@ func runC08(tier string, seed uint64) int {
 		cases = append(cases, c)
 	}
 
+	nodeTimeout = 15 * time.Minute
 	st := &c08Stats{nontrivial: map[string]bool{}, peerOrders: map[string]bool{}, byKind: map[string]int{}, byFmt: map[string]int{}}
 	type caseOut struct {
 		mm      *c08Mismatch
@@ -455,14 +457,19 @@ func runC08(tier string, seed uint64) int {
 		steps := c08Steps(c)
 		var base *c08Variant
 		var baseEv []job.Event
-		for k := 0; k <= K; k++ {
+		kCase := K
+		for k := 0; k <= kCase; k++ {
 			v := c.variant(r, k)
 			if k == 0 {
 				v.kind = "baseline"
 				base = v
 			}
 			run := c.run(v, steps, false)
+			t0 := time.Now()
 			res := execute(&run)
+			if k == 0 && time.Since(t0) > 10*time.Second {
+				kCase = 3 // a very heavy directory (tens of thousands of connections): fewer variants
+			}
 			o.execs++
 			if res.Infra != "" {
 				o.infra = res.Infra
